@@ -3,9 +3,20 @@ pub trait SortUnstableV {
     spec fn seq_v(&self) -> Seq<u64>;
     fn sort_unstable_v(&mut self)
         ensures sorted(final(self).seq_v()), final(self).seq_v().to_multiset() == old(self).seq_v().to_multiset();
+    // rule R11: std's contract of slice::binary_search on an ascending list (unspecified result otherwise)
+    fn binary_search_v(&self, x: &u64) -> (r: core::result::Result<usize, usize>)
+        ensures sorted(self.seq_v()) ==> bsearch_result(self.seq_v(), *x, r);
+}
+pub open spec fn bsearch_result(s: Seq<u64>, x: u64, r: core::result::Result<usize, usize>) -> bool {
+    match r {
+        Ok(i) => i < s.len() && s[i as int] == x,
+        Err(i) => i <= s.len() && (forall|j: int| 0 <= j < i ==> s[j] < x) && (forall|j: int| i <= j < s.len() ==> s[j] > x),
+    }
 }
 impl SortUnstableV for Vec<u64> {
     open spec fn seq_v(&self) -> Seq<u64> { self@ }
     #[verifier::external_body]
     fn sort_unstable_v(&mut self) { unimplemented!() }
+    #[verifier::external_body]
+    fn binary_search_v(&self, x: &u64) -> (r: core::result::Result<usize, usize>) { unimplemented!() }
 }
